@@ -4,7 +4,7 @@ use core::num::NonZeroUsize;
 use core::ops::Range;
 use super::spec::*;
 
-broadcast use super::lem::kernel_arith;
+broadcast use {super::lem::kernel_arith, super::lem::layout_step};
 
 /// Transcription of `BumpProps::debug_assert_valid` (the documented precondition of the four
 /// bump functions) plus truthfulness of the hints.  Kani checks that this predicate implies
